@@ -75,6 +75,35 @@ def hand_base(name):
             f.set_construct(s, axes=[a_s])
             f.set_construct(C.CellMethod(axes=[at], method="maximum"))
         return f
+    if name in ("txy", "txy_aux", "ttxy"):
+        # size-1 axes created FIRST (identifiers domainaxis0[, 1]) and not spanned by the data, so that they are
+        # written as scalar coordinate variables and come back from cfdm.read under OTHER identifiers (the reader
+        # numbers the data dimensions first); a cell method over each of them
+        f = C.Field(properties={"standard_name": "air_temperature", "units": "K"})
+        at = f.set_construct(C.DomainAxis(1))
+        ah = f.set_construct(C.DomainAxis(1)) if name == "ttxy" else None
+        ay = f.set_construct(C.DomainAxis(3))
+        ax = f.set_construct(C.DomainAxis(4))
+        f.set_data(C.Data(np.arange(12.0).reshape(3, 4)), axes=[ay, ax])
+        tprops = {"standard_name": "time", "units": "days since 2000-01-01"}
+        if name == "txy_aux":
+            f.set_construct(C.AuxiliaryCoordinate(properties=tprops, data=C.Data(np.array([15.0]))), axes=[at])
+        else:
+            t = C.DimensionCoordinate(properties=tprops, data=C.Data(np.array([15.0])))
+            t.set_bounds(C.Bounds(data=C.Data(np.array([[0.0, 30.0]]))))
+            f.set_construct(t, axes=[at])
+        if ah is not None:
+            f.set_construct(C.DimensionCoordinate(properties={"standard_name": "height", "units": "m"},
+                                                  data=C.Data(np.array([2.0]))), axes=[ah])
+        f.set_construct(C.DimensionCoordinate(properties={"standard_name": "latitude", "units": "degrees_north"},
+                                              data=C.Data(np.array([10.0, 20.0, 30.0]))), axes=[ay])
+        f.set_construct(C.DimensionCoordinate(properties={"standard_name": "longitude", "units": "degrees_east"},
+                                              data=C.Data(np.array([0.0, 90.0, 180.0, 270.0]))), axes=[ax])
+        f.set_construct(C.CellMethod(axes=[at], method="maximum"))
+        if ah is not None:
+            f.set_construct(C.CellMethod(axes=[ah], method="point"))
+        f.set_construct(C.CellMethod(axes=[ay], method="mean"))
+        return f
     if name in ("zyx", "zyx_nodatum", "zyx_gmdatum"):
         # a parametric vertical coordinate + a grid mapping; datums as named
         f = C.Field(properties={"standard_name": "air_temperature", "units": "K"})
@@ -191,7 +220,11 @@ def hand_base(name):
 
 HAND_DSG = ["dsg_contig", "dsg_ic"]
 HAND_SQUARE = ["line", "square"]
-HAND = ["xy", "xy_scalar", "xy_nodim", "xy_blank", "zyx", "zyx_nodatum", "zyx_gmdatum"]
+HAND = ["xy", "xy_scalar", "xy_nodim", "xy_blank", "zyx", "zyx_nodatum", "zyx_gmdatum", "txy", "ttxy"]
+HAND_SCALAR_FIRST = ["txy", "txy_aux", "ttxy"]
+# properties that may become netCDF global attributes (NetCDFWrite.cf_description_of_file_contents_attributes) + free names
+FILE_PROPS = ["comment", "history", "institution", "references", "source", "title", "featureType"]
+FREE_PROPS = ["project", "experiment_id", "realization"]
 
 _seed_funcs = None
 SEEDFILES = ["_make_contiguous_file", "_make_indexed_file", "_make_indexed_contiguous_file", "_make_gathered_file",
@@ -519,6 +552,34 @@ def apply_op(f, op):
         f = hand_base(op[1])
     elif name == "example":  # cfdm.example_field(n)
         f = C.example_field(op[1])
+    elif name == "cnoname":  # a construct without standard_name and without netCDF variable name (default names)
+        k, c = _pick(f, op[1], op[2])
+        if c is not None:
+            used = any(k in r.coordinates() for r in f.coordinate_references(todict=True).values())
+            if not used:
+                c.del_property("standard_name", None)
+                c.nc_del_variable(None)
+                if not c.has_property("long_name"):
+                    c.set_property("long_name", "unnamed " + str(op[1]))
+    elif name == "scalarise":  # first element along a data axis, the axis squeezed out of the data (-> scalar coordinate)
+        if f.has_data() and f.ndim > 1:
+            i = op[1] % f.ndim
+            if f.shape[i] >= 1:
+                ix = [slice(None)] * f.ndim
+                ix[i] = slice(0, 1)
+                try:
+                    f = f[tuple(ix)].squeeze(i)
+                except Exception:
+                    pass
+    elif name == "fprop":  # a property of the field itself (a candidate netCDF global attribute, or a free name)
+        f.set_property(op[1], op[2])
+    elif name == "fpropdel":
+        f.del_property(op[1], None)
+    elif name == "fglobal":  # nc_set_global_attribute: flag (value None) or forced value
+        if op[2] is None:
+            f.nc_set_global_attribute(op[1])
+        else:
+            f.nc_set_global_attribute(op[1], op[2])
     elif name == "noop":
         pass
     else:
@@ -599,6 +660,19 @@ def random_ops(rng, family):
         ops = [rng.choice([["subspace", rng.randint(0, 3), rng.choice(["head", "tail"])], ["transpose"]])]
     elif family == "fieldfrom":
         ops = [["fieldfrom", rng.choice(["dan", "dan", "aux", "msr"]), i]]
+    elif family == "noname":
+        ops = [["cnoname", rng.choice(["dim", "dim", "aux"]), i]]
+        if rng.random() < 0.4:
+            ops.append(["ancdim", rng.randint(0, 3), rng.choice(["x", "y", "dim", "n"])])
+    elif family == "fprop":  # this sibling has / lacks / differs in a description-of-file-contents property
+        nm = rng.choice(FILE_PROPS[:6] + FILE_PROPS[:6] + FREE_PROPS)
+        how = rng.choice(["set", "set", "set2", "del"])
+        if how == "del":
+            ops = [["fpropdel", nm]]
+        else:
+            ops = [["fprop", nm, "value A" if how == "set" else "value B"]]
+            if nm in FREE_PROPS and rng.random() < 0.5:
+                ops.append(["fglobal", nm, None])
     elif family == "domain":
         ops = [["domain"]]
     else:
@@ -606,8 +680,109 @@ def random_ops(rng, family):
     return ops
 
 
+def scalar_shared_recipe(rng):
+    """Fields sharing a scalar coordinate variable, each with a cell method over the scalar coordinate's axis, the
+    axis having another identifier in the original than the one cfdm.read assigns (size-1 axis created first, or the
+    leading axis of an example field subspaced and squeezed out)."""
+    which = rng.choice(["txy", "txy", "txy_aux", "ttxy", "ex2", "ex2", "ex1"])
+    pre = []
+    if which in HAND_SCALAR_FIRST:
+        base = {"kind": "hand", "name": which}
+    elif which == "ex2":   # (time, lat, lon): time -> scalar, cell method over it
+        base = {"kind": "example", "n": 2}
+        pre = [["scalarise", 0], ["cmadd", 0, rng.choice(["maximum", "minimum", "mean"])]]
+    else:                  # example field 1 (z, y, x): z -> scalar (its formula terms go with it), cell method over it
+        base = {"kind": "example", "n": 1}
+        pre = [["scalarise", 0], ["cmadd", 0, "point"]]
+    n = rng.choice([2, 2, 3])
+    sibs = []
+    for j in range(n):
+        ops = list(pre)
+        r = rng.random()
+        if j == 0:
+            pass
+        elif r < 0.6:      # equal scalar coordinate (shared variable), other data
+            ops += [["data", j], ["ncvar", f"q{j}"]]
+        elif r < 0.8:      # a different scalar coordinate (not shared)
+            ops += [["cvalue", "dim" if which != "txy_aux" else "aux", 0, 1], ["ncvar", f"q{j}"]]
+        else:              # equal scalar coordinate, other cell method over its axis
+            ops += [["cmdel"], ["cmadd", 0, "minimum"], ["data", j], ["ncvar", f"q{j}"]]
+        if j and rng.random() < 0.3:
+            ops.append(["stdname", rng.choice(["eastward_wind", "air_pressure"])])
+        sibs.append(ops)
+    rng.shuffle(sibs)
+    return {"base": base, "sibs": sibs}, ["scalar_shared:" + which]
+
+
+def mixed_recipe(rng):
+    """Unrelated constructs in one dataset (different ancestors: example fields, hand-built fields), each with cell
+    methods over some of its axes: the same construct / axis identifier (domainaxis0, dimensioncoordinate1 ...) plays
+    another role in each of them - a scalar coordinate axis here, a data dimension there -, which is what a writer or
+    reader state keyed by identifiers and carried from one construct to the next trips over."""
+    pool = [("hand", "txy"), ("hand", "ttxy"), ("hand", "txy_aux"), ("hand", "xy"), ("hand", "xy_scalar"), ("hand", "xy_blank"),
+            ("hand", "zyx"), ("hand", "line"), ("example", 0), ("example", 1), ("example", 2), ("example", 5), ("example", 6),
+            ("example", 7)]
+    n = rng.choice([2, 2, 3])
+    picks = [rng.choice(pool) for _ in range(n)]
+    if rng.random() < 0.6:  # a scalar-axis-first field followed by fields whose first axes are data dimensions
+        picks[0] = rng.choice(pool[:3] + [("example", 0), ("hand", "xy_scalar")])
+    base = {"kind": picks[0][0], ("name" if picks[0][0] == "hand" else "n"): picks[0][1]}
+    sibs = []
+    for j, (kind, which) in enumerate(picks):
+        ops = [] if j == 0 else [["replace", which] if kind == "hand" else ["example", which]]
+        for _ in range(rng.choice([0, 1, 1, 2])):
+            ops.append(["cmadd", rng.randint(0, 3), rng.choice(["mean", "maximum", "minimum", "point"])])
+        if j:
+            ops.append(["ncvar", f"m{j}"])
+            if rng.random() < 0.5:
+                ops.append(["stdname", rng.choice(["eastward_wind", "air_pressure", "specific_humidity"])])
+        sibs.append(ops)
+    if rng.random() < 0.5:
+        rng.shuffle(sibs)
+    return {"base": base, "sibs": sibs}, ["mixed"]
+
+
+def fprops_recipe(rng):
+    """Per candidate property (description-of-file-contents attributes, a flagged free name) every sibling is in one of
+    the states value A / value B / absent: the writer may make it a netCDF global attribute only when EVERY construct has
+    it with the same value (whichever construct is given first)."""
+    r = rng.random()
+    if r < 0.4:
+        base = {"kind": "hand", "name": rng.choice(["xy", "txy", "xy_scalar", "line"])}
+    elif r < 0.8:
+        base = {"kind": "example", "n": rng.choice([0, 1, 2, 5, 7])}
+    else:
+        base = {"kind": "random", "seed": rng.randint(0, 10 ** 9), "allow": ["dim", "aux", "scalar", "cm", "bounds", "names"], "max_axes": 2}
+    n = rng.choice([2, 2, 3, 3])
+    names = rng.sample(FILE_PROPS, rng.choice([1, 2, 2, 3]))
+    if rng.random() < 0.4:
+        names.append(rng.choice(FREE_PROPS))
+    sibs = [[] for _ in range(n)]
+    for nm in names:
+        # at least one sibling has it; the states of the others are drawn freely
+        states = [rng.choice(["A", "A", "B", None]) for _ in range(n)]
+        states[rng.randrange(n)] = "A"
+        if rng.random() < 0.35:  # the corner: exactly one has it
+            k = rng.randrange(n)
+            states = ["A" if j == k else None for j in range(n)]
+        flag = nm in FREE_PROPS
+        for j, st in enumerate(states):
+            if st is None:
+                sibs[j].append(["fpropdel", nm])
+            else:
+                sibs[j].append(["fprop", nm, f"{nm} {st}"])
+                if flag:
+                    sibs[j].append(["fglobal", nm, None])
+    for j in range(n):
+        if j:
+            sibs[j] += [["data", j], ["ncvar", f"v{j}"]]
+            if rng.random() < 0.5:
+                sibs[j].append(["stdname", rng.choice(["eastward_wind", "air_pressure", "specific_humidity"])])
+    return {"base": base, "sibs": sibs}, ["fprops"]
+
+
 FAMILIES = ["equal", "dup", "value", "nearly", "nearly", "bounds", "units", "prop", "dtype", "ncvar", "ncvar_conflict", "ncdim", "unlimited",
-            "nodimcoord", "delaux", "auxcopy", "gm", "ft", "cm", "shape", "fieldfrom", "domain"]
+            "nodimcoord", "delaux", "auxcopy", "gm", "ft", "cm", "shape", "fieldfrom", "domain", "fprop", "fprop", "noname"]
 
 
 def random_recipe(rng, nmin=2, nmax=4, base=None, modelled_only=False):
@@ -640,6 +815,12 @@ def random_recipe(rng, nmin=2, nmax=4, base=None, modelled_only=False):
         if rng.random() < 0.5:
             sibs.reverse()
         return {"base": {"kind": "hand", "name": nm}, "sibs": sibs}, ["vgrid"]
+    if base is None and rng.random() < 0.07:
+        return scalar_shared_recipe(rng)
+    if base is None and rng.random() < 0.08:
+        return fprops_recipe(rng)
+    if base is None and rng.random() < 0.09:
+        return mixed_recipe(rng)
     if base is None and rng.random() < 0.03:
         # axes without dimension coordinate: an equal / a different auxiliary coordinate on an axis of the same size
         sibs = [[], [["cvalue", "aux", 0, 1], ["ncvar", "q1"]], [["data", 2], ["ncvar", "q2"]]]
